@@ -26,6 +26,15 @@ GH="$(go env GOMODCACHE)/github.com/f1bonacc1/go-health/v2@v2.1.4"
 rsync -a --chmod=u+w --exclude '*_test.go' --exclude examples --exclude fakes "$GH/" "$SCRATCH/go-health/" || die "rsync go-health"
 # 2. instrument
 PATH="/opt/veriftools/go1.26.8/bin:$PATH" "$VERIF/bin/simrewrite" -repo "$SCRATCH/repo" -health "$SCRATCH/go-health" -sites "$SCRATCH/sites.json" || die "simrewrite failed"
+# 2a. export shim: lets the harness run the binary's headless entry point (signal handler + Run)
+cat > "$SCRATCH/repo/src/cmd/zz_verif_export.go" <<EOM
+package cmd
+
+import "github.com/f1bonacc1/process-compose/src/app"
+
+// VerifRunHeadless exposes runHeadless to the simulation harness (scratch copy only).
+func VerifRunHeadless(p *app.ProjectRunner) error { return runHeadless(p) }
+EOM
 # the scratch repo must see the rt module (the rewritten files import it)
 cat >> "$SCRATCH/repo/go.mod" <<EOM
 
